@@ -89,41 +89,82 @@ def reader_func(program, fname):
                      'dummy_interval': custom(record)}, strict=False)
 
 
+def _role_of(iter_text: str, k):
+    if iter_text.endswith('.intervals') or iter_text.endswith('._intervals'):
+        return 'interval'
+    if iter_text == 'enumerate(annotation.sequence)' and k is not None:
+        return ('i', 'aa')[k] if k < 2 else None
+    if 'mods' in iter_text or 'adducts' in iter_text:
+        return 'mod'
+    return None
+
+
+def writer_model(program, fname):
+    """emission tree of one serializer part (helpers inlined, locals substituted, loop variables spelled by role,
+    parameters spelled annotation / include_plus)"""
+    from ..emit import Builder
+    from ..canon import params_of
+    f = program.func(f'{PP}:{fname}')
+    ps = params_of(f.node)
+    if len(ps) < 2:
+        raise AnalysisError(f'{fname}: expected (annotation, include_plus)')
+    b = Builder(program, PP, _role_of)
+    seq, kind = b.function(f, {ps[0]: ast.Name(id='annotation', ctx=ast.Load()),
+                               ps[1]: ast.Name(id='include_plus', ctx=ast.Load())})
+    if seq is None or kind != 'joined':
+        raise AnalysisError(f'{fname}: not read as a text builder (a list of pieces that is joined and returned)')
+    return f, seq
+
+
+def _lit_of(fl) -> Optional[str]:
+    """the literal (prefix) an emission writes: '?' ; f'/{charge}' -> '/'"""
+    e = fl.emit.expr
+    s = _const_str(e)
+    if s is not None:
+        return s
+    if isinstance(e, ast.JoinedStr) and e.values and isinstance(e.values[0], ast.Constant):
+        return str(e.values[0].value)
+    return None
+
+
 def writer_table(program) -> Dict[str, dict]:
+    """per modification group: the bracket pairs it is written in and the literal written right before / after the
+    group (under the same conditions); per condition: the literals written under it"""
+    from ..emit import flat
     rows: Dict[str, dict] = {}
     for fname in ('_serialize_annotation_start', '_serialize_annotation_middle', '_serialize_annotation_end'):
-        f = writer_func(program, fname)
-
-        def visit(block, under: List[str]):
-            for i, st in enumerate(block):
-                if isinstance(st, ast.For):
-                    fld = _field_of_iter(st.iter)
-                    br = None
-                    for x in st.body:  # only a loop that serializes its own element is a group
-                        if isinstance(x, ast.Expr):
-                            br = br or _serialize_brackets(x)
-                    if fld is not None and br is not None:
-                        before = [_append_literal(x) for x in block[:i]]
-                        after = [_append_literal(x) for x in block[i + 1:]]
-                        row = rows.setdefault(fld, {'brackets': set(), 'before': set(), 'after': set(), 'loc': f.loc(st),
-                                                    'under': set()})
-                        row['brackets'].add(br)
-                        row['before'] |= {x for x in before if x}
-                        row['after'] |= {x for x in after if x}
-                        row['under'] |= set(under)
-                    else:
-                        visit(st.body, under)
-                elif isinstance(st, ast.If):
-                    lit_under = under + [norm_stmt(st.test)]
-                    # literals appended directly under a condition (interval markers, charge)
-                    for x in st.body:
-                        lit = _append_literal(x)
-                        if lit is not None:
-                            rows.setdefault('literal:' + norm_stmt(st.test), {'lits': [], 'loc': f.loc(x)})[
-                                'lits'].append(lit)
-                    visit(st.body, lit_under)
-                    visit(st.orelse, under)
-        visit(f.node.body, [])
+        f, seq = writer_model(program, fname)
+        fl = flat(seq)
+        for k, x in enumerate(fl):
+            e = x.emit.expr
+            if isinstance(e, ast.Call) and isinstance(e.func, ast.Attribute) and e.func.attr == 'serialize' and x.loops \
+                    and isinstance(e.func.value, ast.Name) and e.func.value.id in x.loops[-1].roles:
+                br = _serialize_brackets(e)
+                fld = _field_of_iter(x.loops[-1].iter)
+                if fld is None or br is None:
+                    continue
+                row = rows.setdefault(fld, {'brackets': set(), 'before': set(), 'after': set(),
+                                            'loc': f.loc(x.emit.node) if x.emit.fn is None or x.emit.fn.fq == f.fq
+                                            else x.emit.fn.loc(x.emit.node), 'under': set()})
+                row['brackets'].add(br)
+                row['under'] |= {t for t, pol in x.guards if pol}
+                outer = tuple(l.uid for l in x.loops[:-1])
+                for side, j in (('before', k - 1), ('after', k + 1)):
+                    if 0 <= j < len(fl):
+                        y = fl[j]
+                        lit = _lit_of(y)
+                        # a neighbour written once per group: same outer loops, and no condition of its own beyond
+                        # the group's
+                        if lit is not None and tuple(l.uid for l in y.loops) == outer and set(y.guards) <= set(x.guards):
+                            row[side].add(lit)
+            else:
+                lit = _lit_of(x)
+                if lit is not None:
+                    for t, pol in x.guards:
+                        if pol:
+                            rows.setdefault('literal:' + t, {'lits': [], 'loc': f.loc(x.emit.node)
+                                                             if x.emit.fn is None or x.emit.fn.fq == f.fq
+                                                             else x.emit.fn.loc(x.emit.node)})['lits'].append(lit)
     return rows
 
 
@@ -228,6 +269,23 @@ def _cursor_eq(test) -> List[Tuple[str, str]]:
     return out
 
 
+def _negated(test):
+    from ..emit import negate
+    return negate(test)
+
+
+def _adder_alternatives(e) -> list:
+    """`self._add_x` -> [(x, [])] ; `self._add_x if T else self._add_y` -> [(x, [T]), (y, ['not T'])]"""
+    if isinstance(e, ast.Attribute) and e.attr.startswith('_add_') and norm_stmt(e.value) == 'self':
+        return [(e.attr[len('_add_'):], [])]
+    if isinstance(e, ast.IfExp):
+        a, b = _adder_alternatives(e.body), _adder_alternatives(e.orelse)
+        if a and b:
+            t = norm_stmt(e.test)
+            return [(f_, m + [t]) for f_, m in a] + [(f_, m + ['not ' + t]) for f_, m in b]
+    return []
+
+
 def _parse_mods_call(e) -> Optional[Tuple[str, str]]:
     for n in ast.walk(e):
         if isinstance(n, ast.Call) and isinstance(n.func, ast.Attribute) and \
@@ -254,7 +312,21 @@ def reader_table(program) -> Dict[str, dict]:
 
         def visit(block, conds: List[Tuple[str, str]], defs: Dict[str, Tuple[str, str]], extra: List[str]):
             defs = dict(defs)
-            for st in block:
+            block = list(block)
+            for k_, st in enumerate(block):
+                # guard clause: `if cur != 'x': raise/continue/return` -- what follows runs under cur == 'x'
+                if isinstance(st, ast.If) and not st.orelse and st.body and \
+                        isinstance(st.body[-1], (ast.Raise, ast.Continue, ast.Return, ast.Break)):
+                    neg = _cursor_eq(_negated(st.test))
+                    if neg:
+                        visit(st.body, conds, defs, extra)
+                        visit(block[k_ + 1:], conds + neg, defs, extra)
+                        return
+                # an adder chosen by a conditional expression / bound to a local
+                if isinstance(st, ast.Assign) and len(st.targets) == 1 and isinstance(st.targets[0], ast.Name):
+                    alts = _adder_alternatives(st.value)
+                    if alts:
+                        adders[st.targets[0].id] = alts
                 if isinstance(st, ast.Assign) and len(st.targets) == 1:
                     br = _parse_mods_call(st.value)
                     if br is not None:
@@ -282,8 +354,15 @@ def reader_table(program) -> Dict[str, dict]:
                         markers['close'] = {'conds': list(conds), 'loc': f.loc(st), 'end': norm_stmt(st.value)}
                 for call in [n for n in ast.walk(st) if isinstance(n, ast.Call)] if not isinstance(
                         st, (ast.If, ast.For, ast.While, ast.Try)) else []:
+                    targets = []
                     if isinstance(call.func, ast.Attribute) and call.func.attr.startswith('_add_') and call.args:
-                        feat = call.func.attr[len('_add_'):]
+                        targets = [(call.func.attr[len('_add_'):], [])]
+                    elif isinstance(call.func, ast.Name) and call.func.id in adders and call.args:
+                        targets = adders[call.func.id]
+                    elif isinstance(call.func, ast.IfExp) and call.args:
+                        targets = _adder_alternatives(call.func)
+                    for feat, more in targets:
+                        extra_ = extra + more
                         arg = call.args[0]
                         br = _parse_mods_call(arg)
                         if br is None and isinstance(arg, ast.Name):
@@ -295,7 +374,7 @@ def reader_table(program) -> Dict[str, dict]:
                         row = rows.setdefault(feat, {'brackets': set(), 'conds': [], 'loc': f.loc(call), 'extra': []})
                         row['brackets'].add(br[0] + br[1])
                         row['conds'].append(list(conds))
-                        row['extra'] += extra
+                        row['extra'] += extra_
                 if isinstance(st, ast.If):
                     eqs = _cursor_eq(st.test)
                     tx = norm_stmt(st.test)
@@ -311,6 +390,7 @@ def reader_table(program) -> Dict[str, dict]:
                     visit(st.body, conds, defs, extra)
                 elif isinstance(st, ast.Try):
                     visit(st.body, conds, defs, extra)
+        adders: Dict[str, list] = {}
         visit(f.node.body, [], {}, [])
     rows['_links'] = links
     rows['_markers'] = markers
@@ -318,13 +398,32 @@ def reader_table(program) -> Dict[str, dict]:
 
 
 def reader_multiplier(program) -> Optional[str]:
+    """the character the parser tests the cursor against before it reads a multiplier: searched in _parse_modification
+    and in the methods whose result it hands to Mod(.., <multiplier>)"""
     f = program.func(f'{PP}:_ProFormaParser._parse_modification')
-    for n in ast.walk(f.node):
-        if isinstance(n, ast.Compare) and len(n.ops) == 1 and isinstance(n.ops[0], ast.Eq) and \
-                norm_stmt(n.left) in ('self._peek()', 'self._current()'):
-            c = _const_str(n.comparators[0])
-            if c is not None:
-                return c
+    funcs = [f]
+    c = Canon(f.node)
+    for n in walk_own(f.node):
+        if isinstance(n, ast.Call) and isinstance(n.func, ast.Name) and n.func.id == 'Mod' and \
+                (len(n.args) >= 2 or any(kw.arg == 'mult' for kw in n.keywords)):
+            arg = n.args[1] if len(n.args) >= 2 else [kw.value for kw in n.keywords if kw.arg == 'mult'][0]
+            exprs = [arg]
+            if isinstance(arg, ast.Name):
+                exprs += [pl for kind, pl in c.bindings.get(arg.id, []) if kind == 'assign']
+            for e in exprs:
+                for x in ast.walk(e):
+                    if isinstance(x, ast.Call) and isinstance(x.func, ast.Attribute) and norm_stmt(x.func.value) == 'self':
+                        try:
+                            funcs.append(program.func(f'{PP}:_ProFormaParser.{x.func.attr}'))
+                        except Exception:
+                            pass
+    for g in funcs:
+        for n in ast.walk(g.node):
+            if isinstance(n, ast.Compare) and len(n.ops) == 1 and isinstance(n.ops[0], (ast.Eq, ast.NotEq)) and \
+                    norm_stmt(n.left) in ('self._peek()', 'self._current()', 'self.sequence[self.position]'):
+                cs = _const_str(n.comparators[0])
+                if cs is not None:
+                    return cs
     return None
 
 
@@ -386,20 +485,9 @@ def token_tables(ctx, rep, clause):
        "'@' in" in st_extra and "not '@' in" in iso_extra,
        'a global modification with a target list is static, without it an isotope label',
        f'discriminating test not found (static: {st_extra!r}, isotope: {iso_extra!r})', r['static_mod']['loc'], clause)
-    # interval markers
+    # interval markers: decided on the text the middle part writes for small representative annotations
     m = r['_markers']
-    for key, lit_cond, expect in (('open', '.start ==', '('), ('ambiguous', '.ambiguous', '?'), ('close', '.end ==', ')')):
-        wl = set()
-        for k, v in w.items():
-            if k.startswith('literal:') and lit_cond in k:
-                wl |= set(v['lits'])
-        if key not in m:
-            raise AnalysisError(f'parser: interval marker {key} not found')
-        rc = _sel([m[key]['conds']], 'cur')
-        n += 1
-        ob(rep, 'TOK-delimiter', f'{PP}:_serialize_annotation_middle', f'interval {key}: written {sorted(wl)}, parser '
-           f'tests {sorted(rc)}', bool(wl) and wl <= rc, 'same marker on both sides',
-           f'writer emits {sorted(wl)} for interval {key}, parser tests {sorted(rc)}', m[key]['loc'], clause)
+    n += middle_reference(ctx, rep, clause, ('markers',))
     # charge
     wl = set()
     for k, v in w.items():
@@ -565,35 +653,186 @@ def interval_state(ctx, rep, clause):
                    norm_stmt(kw.value), True, clause)
 
 
-def marker_order(ctx, rep, clause):
-    """at one boundary every closing marker precedes every opening marker, whatever the order of the interval list
-    (reverse() leaves the list in descending order): one loop over the intervals must not emit both"""
+def _reader_markers(program) -> Dict[str, str]:
+    m = reader_table(program)['_markers']
+    out = {}
+    for key in ('open', 'ambiguous', 'close'):
+        if key not in m:
+            raise AnalysisError(f'parser: interval marker {key} not found')
+        rc = _sel([m[key]['conds']], 'cur')
+        if len(rc) != 1:
+            raise AnalysisError(f'parser: interval marker {key} is tested against {sorted(rc)}')
+        out[key] = next(iter(rc))
+    return out
+
+
+def _iv(name, start, end, ambiguous=False, mods=None) -> dict:
+    return {'interval': name, 'interval.start': start, 'interval.end': end, 'interval.ambiguous': ambiguous,
+            'interval.mods': mods, 'interval.has_mods()': bool(mods), '_name': name}
+
+
+def _writer_hook(call, ge):
+    """decided results of the calls a serializer part makes on its representatives"""
+    from ..guards import UNK
+    fn = call.func
+    if isinstance(fn, ast.Attribute):
+        if fn.attr == 'serialize':
+            recv = ge.eval(fn.value)
+            args = [ge.eval(a) for a in call.args] + [ge.eval(k.value) for k in call.keywords]
+            if recv is UNK or any(a is UNK for a in args):
+                return UNK
+            return '<' + ':'.join(str(x) for x in [recv] + args) + '>'
+        if fn.attr.startswith('has_') and not call.args:
+            key = f'{norm_stmt(fn.value)}.{fn.attr[4:]}'
+            if key in ge.env:
+                return bool(ge.env[key])
+            return UNK
+        recv = ge.eval(fn.value)
+        if isinstance(recv, dict):
+            args = [ge.eval(a) for a in call.args]
+            if any(a is UNK for a in args):
+                return UNK
+            if fn.attr == 'get' and 1 <= len(args) <= 2:
+                return recv.get(*args)
+            if fn.attr == 'items' and not args:
+                return tuple(recv.items())
+            if fn.attr == 'keys' and not args:
+                return tuple(recv.keys())
+            if fn.attr == 'values' and not args:
+                return tuple(recv.values())
+    return UNK
+
+
+def _middle_text(seq, intervals, internal_mods, sequence='ABC') -> str:
+    from ..emit import trace, Undecided
+    iv = None if intervals is None else tuple(intervals)
+    env = {'annotation.sequence': sequence, 'annotation._sequence': sequence, 'include_plus': 'IP',
+           'annotation.intervals': iv, 'annotation._intervals': iv,
+           'annotation.internal_mods': internal_mods, 'annotation._internal_mods': internal_mods}
+    try:
+        return ''.join(trace(seq, env, call_hook=_writer_hook))
+    except Undecided as e:
+        raise AnalysisError(f'_serialize_annotation_middle: the condition `{e}` is not decided by the representative '
+                            f'annotations of the writer model')
+
+
+def middle_reference(ctx, rep, clause, aspects=('markers', 'positions', 'order', 'absent')) -> int:
+    """The text the middle part writes - read off its emission tree, nothing is run - for small representative
+    annotations, against the text the parser reads the same structure from (markers taken from the parser's own cursor
+    tests): Boundary b sits before residue b (after the last residue for b == n); at one boundary the intervals opened
+    earlier are closed first (each `)` followed by its modifications), empty intervals are written whole, then the
+    intervals that start there are opened - whatever order the interval list is in (reverse() leaves it descending);
+    residue modifications follow their residue."""
+    import itertools
     program = ctx.program
-    g = writer_func(program, '_serialize_annotation_middle')
-    loop = None
-    for st in g.node.body:
-        if isinstance(st, ast.For) and 'enumerate(annotation.sequence)' in norm_stmt(st.iter):
-            loop = st
-    if loop is None:
-        raise AnalysisError('_serialize_annotation_middle: residue loop not found')
-    idx = loop.target.elts[0].id if isinstance(loop.target, ast.Tuple) else None
-    iv_loops = [x for x in ast.walk(loop) if isinstance(x, ast.For) and
-                norm_stmt(x.iter) in ('annotation.intervals', 'annotation._intervals')]
-    kinds = []
-    for lp in iv_loops:
-        opens = any(isinstance(y, ast.If) and f'.start == {idx}' in norm_stmt(y.test) for y in ast.walk(lp))
-        closes = any(isinstance(y, ast.If) and f'.end == {idx}' in norm_stmt(y.test) for y in ast.walk(lp))
-        kinds.append((lp.lineno, opens, closes))
-    kinds.sort()
-    mixed = [k for k in kinds if k[1] and k[2]]
-    first_open = min([k[0] for k in kinds if k[1]], default=None)
-    last_close = max([k[0] for k in kinds if k[2]], default=None)
-    ok = bool(kinds) and not mixed and first_open is not None and last_close is not None and last_close < first_open
-    ob(rep, 'KIND', g.fq, 'at one boundary closing markers are written before opening markers for any order of the '
-       'interval list', ok, 'closings in a first pass, openings in a second',
-       'one pass over the intervals writes both `(` and `)` for boundary i, in list order: two adjacent intervals held '
-       'in descending order (as reverse() leaves them) are written `()`: `(PE)[1](PT)[2]IDE` reversed serializes to '
-       '`EDI(TP()[2]EP)[1]`', g.loc(iv_loops[0]) if iv_loops else g.loc(loop), clause)
+    key = ('C01.middle_model',)
+    if key not in ctx.cache:
+        ctx.cache[key] = writer_model(program, '_serialize_annotation_middle')
+    g, seq = ctx.cache[key]
+    mk = _reader_markers(program)
+    o, q, c = mk['open'], mk['ambiguous'], mk['close']
+    r = reader_table(program)
+    ib = sorted(r['interval.mods']['brackets'])[0] if r.get('interval.mods') else '[]'
+    rb = sorted(r['internal_mod']['brackets'])[0] if r.get('internal_mod') else '[]'
+
+    def t(name, br):
+        return f'<{name}:{br}:IP>'
+    n = 0
+    loc = g.loc()
+
+    def case(rule, what, intervals, internal, expected, bad, clause_):
+        nonlocal n
+        got = _middle_text(seq, intervals, internal)
+        n += 1
+        ob(rep, rule, g.fq, what, got == expected, f'`{expected}`',
+           f'{bad}: the middle part writes `{got}`, the parser reads this structure only from `{expected}`', loc, clause_)
+
+    if 'markers' in aspects:
+        case('TOK-delimiter', f'interval open/close: written as the parser tests them ({o!r} / {c!r})',
+             [_iv('v', 1, 2)], None, f'A{o}B{c}C', 'an interval over the second of three residues', clause)
+        case('TOK-delimiter', f'interval ambiguity marker: written as the parser tests it ({q!r})',
+             [_iv('v', 1, 2, True)], None, f'A{o}{q}B{c}C', 'an ambiguous interval over the second of three residues',
+             clause)
+        case('TOK-delimiter', 'interval modifications follow the closing marker in the brackets the parser reads them from',
+             [_iv('v', 0, 2, False, ('m1', 'm2'))], None, f'{o}AB{c}{t("m1", ib)}{t("m2", ib)}C',
+             'an interval with two modifications', clause)
+    if 'positions' in aspects:
+        case('KIND', 'interval markers for bound i are written before residue i', [_iv('v', 1, 3)], None,
+             f'A{o}BC{c}', 'an interval from Boundary 1 to Boundary n', clause)
+        case('KIND', 'an interval ending at n is closed after the last residue',
+             [_iv('v', 0, 3, False, ('m',))], None, f'{o}ABC{c}{t("m", ib)}', 'an interval over the whole sequence', clause)
+        case('KIND', 'residue modifications of Position i are written after residue i', None,
+             {0: ('a',), 2: ('b', 'c')}, f'A{t("a", rb)}BC{t("b", rb)}{t("c", rb)}',
+             'modifications on the first and the last residue', clause)
+        case('KIND', 'the modifications of the last residue of an interval are written before the interval is closed',
+             [_iv('v', 0, 2, False, ('m',))], {0: ('r0',), 1: ('r1',), 2: ('r2',)},
+             f'{o}A{t("r0", rb)}B{t("r1", rb)}{c}{t("m", ib)}C{t("r2", rb)}',
+             'an interval whose residues carry modifications of their own', clause)
+        case('KIND', 'an empty interval is written whole at its boundary', [_iv('e', 1, 1, True, ('m',)), _iv('z', 3, 3)],
+             None, f'A{o}{q}{c}{t("m", ib)}BC{o}{c}', 'empty intervals at Boundary 1 and Boundary n', clause)
+    if 'order' in aspects:
+        # every set of up to three distinct, non-overlapping intervals over three residues (adjacent and empty ones
+        # included), every residue modified, in every order of the list, against the reference text
+        res = {0: ('r0',), 1: ('r1',), 2: ('r2',)}
+        pool = []
+        for s_ in range(4):
+            for e_ in range(s_, 4):
+                k = len(pool)
+                pool.append(_iv(f'v{s_}{e_}', s_, e_, k % 2 == 1, (f'm{s_}{e_}',) if k % 3 != 2 else None))
+
+        def overlap(x, y):
+            (a1, b1), (a2, b2) = (x['interval.start'], x['interval.end']), (y['interval.start'], y['interval.end'])
+            if a1 == b1 or a2 == b2:   # an empty interval overlaps only what strictly contains its boundary
+                p_, (lo, hi) = (a1, (a2, b2)) if a1 == b1 else (a2, (a1, b1))
+                return lo < p_ < hi
+            return a1 < b2 and a2 < b1
+
+        def reference(ivs):
+            out = []
+            for b_ in range(4):
+                for kind in ('close', 'empty', 'open'):
+                    for v in ivs:
+                        s_, e_ = v['interval.start'], v['interval.end']
+                        amb = q if v['interval.ambiguous'] else ''
+                        mods = ''.join(t(m_, ib) for m_ in (v['interval.mods'] or ()))
+                        if kind == 'close' and e_ == b_ and s_ < b_:
+                            out.append(c + mods)
+                        if kind == 'empty' and s_ == e_ == b_:
+                            out.append(o + amb + c + mods)
+                        if kind == 'open' and s_ == b_ and e_ > b_:
+                            out.append(o + amb)
+                if b_ < 3:
+                    out.append('ABC'[b_] + ''.join(t(m_, rb) for m_ in res[b_]))
+            return ''.join(out)
+        bad, sets, traces = None, 0, 0
+        for size in (1, 2, 3):
+            for comb in itertools.combinations(pool, size):
+                if any(overlap(x, y) for x, y in itertools.combinations(comb, 2)):
+                    continue
+                sets += 1
+                expected = reference(comb)
+                for perm in itertools.permutations(comb):
+                    traces += 1
+                    got = _middle_text(seq, list(perm), res)
+                    if got != expected and bad is None:
+                        bad = ([(x['interval.start'], x['interval.end']) for x in perm], got, expected)
+        n += 1
+        ob(rep, 'KIND', g.fq, 'at one boundary closing markers are written before opening markers for any order of the '
+           'interval list', bad is None, f'{sets} interval sets over three residues, {traces} list orders: each is '
+           f'written as the reference text', (f'with the intervals {bad[0]} of `ABC` (every residue modified), held in '
+           f'this order, the middle part writes `{bad[1]}` instead of `{bad[2]}`: the parser does not read the same '
+           f'structure back (adjacent intervals held in descending order, as reverse() leaves them, are the common '
+           f'case)') if bad else '', loc, clause)
+        rep.floor('KIND', 'interval list orders traced through the middle serializer', traces, 300)
+    if 'absent' in aspects:
+        for what, ivs_, im in (('no interval list and no residue modifications (None)', None, None),
+                               ('an empty interval list and an empty modification dict', [], {})):
+            case('KIND', f'{what}: only the residues are written', ivs_, im, 'ABC', what, clause)
+    return n
+
+
+def marker_order(ctx, rep, clause):
+    middle_reference(ctx, rep, clause, ('order',))
 
 
 def index_kinds(ctx, rep, clause):
@@ -615,36 +854,9 @@ def index_kinds(ctx, rep, clause):
             pos = norm_stmt(cf.resolve(n.slice))
     ob(rep, 'KIND', f.fq, 'a residue modification is attached at len(residues) - 1', pos == 'len(self._amino_acids) - 1',
        'Position of the residue just read', f'attached at {pos}', f.loc(), clause)
-    # writer: markers are emitted before residue i for start == i / end == i, and once more for end == n
-    g = writer_func(program, '_serialize_annotation_middle')
-    loop = None
-    for st in g.node.body:
-        if isinstance(st, ast.For) and 'enumerate(annotation.sequence)' in norm_stmt(st.iter):
-            loop = st
-    if loop is None:
-        raise AnalysisError('_serialize_annotation_middle: residue loop not found')
-    idx = loop.target.elts[0].id if isinstance(loop.target, ast.Tuple) else None
-    body_txt = [norm_stmt(s) for s in loop.body]
-    append_res = [i for i, s in enumerate(loop.body) if isinstance(s, ast.Expr) and 'append(' in norm_stmt(s) and
-                  isinstance(loop.target, ast.Tuple) and loop.target.elts[1].id in norm_stmt(s) and
-                  'serialize' not in norm_stmt(s)]
-    marker_if = [i for i, s in enumerate(loop.body) if f'.start == {idx}' in norm_stmt(s) or f'.end == {idx}' in norm_stmt(s)]
-    ok = bool(append_res) and bool(marker_if) and max(marker_if) < min(append_res)
-    ob(rep, 'KIND', g.fq, 'interval markers for bound i are written before residue i', ok,
-       'Boundary i sits between residue i-1 and residue i',
-       'interval markers are no longer emitted before the residue they bound', g.loc(loop), clause)
-    marker_order(ctx, rep, clause)
-    tail = [s for s in g.node.body if g.node.body.index(s) > g.node.body.index(loop)]
-    tail_txt = ' '.join(norm_stmt(s) for s in tail)
-    ok = 'len(annotation.sequence)' in tail_txt and '.end ==' in tail_txt and "append(')')" in tail_txt
-    ob(rep, 'KIND', g.fq, 'an interval ending at n is closed after the last residue', ok,
-       'Boundary n is handled after the loop', 'an interval that ends at the C-terminus is never closed', g.loc(),
-       clause)
-    intern = [s for s in loop.body if 'internal_mods' in norm_stmt(s) and f'{idx} in annotation.internal_mods' in norm_stmt(s)]
-    ok = bool(intern) and bool(append_res) and loop.body.index(intern[0]) > min(append_res)
-    ob(rep, 'KIND', g.fq, 'residue modifications of Position i are written after residue i', ok,
-       'Position i follows its residue', 'residue modifications are no longer written right after their residue',
-       g.loc(loop), clause)
+    # writer: markers before residue i, once more after the last residue, closings before openings, residue
+    # modifications after their residue
+    middle_reference(ctx, rep, clause, ('positions', 'order', 'absent'))
 
 
 def check(ctx, rep):
